@@ -11,6 +11,7 @@ usage: c04_runner.py <job.json>      job = {"programs": [{"id":..,"src":..}..], 
 Also evaluates, in-process, the per-run oracle (errors unique and sorted by position) and the monitors of the
 theorems' hypotheses (keys_separate / sets_normal on the input and the output of CanonicalOrdering).
 """
+import collections
 import hashlib
 import json
 import os
@@ -31,6 +32,20 @@ from pytype.pytd import pytd_utils  # noqa: E402
 from pytype.pytd import pytd_visitors  # noqa: E402
 
 import c04_units  # noqa: E402
+
+
+# what the error MESSAGES print (the pretty-printer surface) and what the stub contains
+MSG_FEATURES = {
+    "msg:Literal[": "Literal[", "msg:Union[": "Union[", "msg:Optional[": "Optional[", "msg:Expected-signature": "Expected: (",
+    "msg:signature-default(= ...)": "= ...", "msg:attr-on-union(In Union/Optional)": "\nIn ", "msg:traceback": "Called from (traceback):",
+    "msg:nested-traceback": "\n  line", "msg:dict-display": "dict[", "msg:set-display": "set[", "msg:Callable": "Callable[",
+    "msg:TypedDict": "TypedDict", "msg:protocol": "protocol",
+}
+STUB_FEATURES = {
+    "stub:internal-NewType-name": "_NewType_Internal_Class_Name_", "stub:NamedTuple": "(NamedTuple)", "stub:TypedDict": "(TypedDict",
+    "stub:Protocol": "(Protocol)", "stub:@overload": "@overload", "stub:Generic": "Generic[", "stub:Literal": "Literal[",
+    "stub:attr.s": "@attr.s", "stub:TypeVar": "TypeVar(",
+}
 
 
 def sha(b):
@@ -96,6 +111,11 @@ def analyse(src, loader, out_path, full):
   errs = ret.context.errorlog.unique_sorted_errors()
   tuples = [(e.name, e.filename, e.line, e.message) for e in errs]
   res["status"] = "ok"
+  res["error_names"] = dict(collections.Counter(t[0] for t in tuples))
+  msgs = [t[3] for t in tuples]
+  res["msg_features"] = {k: sum(1 for m in msgs if pat in m) for k, pat in MSG_FEATURES.items()}
+  res["msg_features"]["lines-with>=2-errors"] = sum(1 for v in collections.Counter(t[2] for t in tuples).values() if v >= 2)
+  res["stub_features"] = {k: int(pat in pyi) for k, pat in STUB_FEATURES.items()}
   res["pyi"] = sha(pyi.encode())
   res["errors"] = sha(repr(tuples).encode())
   res["n_errors"] = len(tuples)
@@ -117,7 +137,7 @@ def analyse(src, loader, out_path, full):
     mon += [("unit",) + p for p in p1]
     # idempotence on the real object
     again = _orig_canonical(outp)
-    if repr(again) != repr(outp):
+    if c04_units.proj_nocache(again) != c04_units.proj_nocache(outp):
       mon.append(("unit", "not-idempotent", "", ""))
     stats = s1
   res["monitor"] = [list(m)[:4] for m in mon[:5]]
